@@ -205,7 +205,8 @@ class StmtMixin:
         """-> list of (state, outcome)"""
         if isinstance(tgt, ast.Name):
             name = tgt.id
-            if name in st.frames[-1].get("__globals__", ()) or (self.ghost_mode and name in self.reg.globals):
+            if name in st.frames[-1].get("__globals__", ()) or (self.ghost_mode and name in self.reg.globals) or \
+                    (name not in st.frames[-1] and name in self.reg.globals and self.reg.globals[name][0] == "ctxvar" and v.t[0] == "ctxvar"):
                 gname = self.global_key(st, name)
                 self.set_global(st, gname, v)
                 return [(st, NORMAL)]
@@ -450,7 +451,48 @@ class StmtMixin:
                 elif v.z is not None and v.t[0] not in ("boundmethod", "cls", "func", "module", "modattr", "builtin"):
                     st.locals[n] = Val(v.t, z3.Const(fresh_name(n), self.sort(v.t)))
 
+    def _versioned_syms(self, e, acc, seen):
+        if e.get_id() in seen:
+            return
+        seen.add(e.get_id())
+        if z3.is_quantifier(e):
+            self._versioned_syms(e.body(), acc, seen)
+            return
+        if z3.is_app(e):
+            if e.num_args() == 0 and e.decl().kind() == z3.Z3_OP_UNINTERPRETED:
+                nm = e.decl().name()
+                if "!" in nm and nm.startswith(("H_", "G_", "alloc!", "hv_")):
+                    acc.add(nm)
+            for c in e.children():
+                self._versioned_syms(c, acc, seen)
+
+    def drop_dead_facts(self, st: State):
+        """at a loop head, after the havoc: assumptions that mention an intermediate version of a heap
+        field / ghost global which is neither the entry version nor reachable from the current state
+        cannot contribute to any later proof (dropping hypotheses is always sound)."""
+        live, seen = set(), set()
+        for arr in st.heap.values():
+            self._versioned_syms(arr, live, seen)
+        for v in st.glob.values():
+            if v.z is not None and not isinstance(v.z, tuple):
+                self._versioned_syms(v.z, live, seen)
+        self._versioned_syms(st.alloc, live, seen)
+        for fr in st.frames:
+            for v in fr.values():
+                if isinstance(v, Val) and v.z is not None and not isinstance(v.z, (tuple, dict, list)) and hasattr(v.z, "get_id"):
+                    self._versioned_syms(v.z, live, seen)
+        keep = []
+        for f in st.pc:
+            syms = set()
+            self._versioned_syms(f, syms, set())
+            if syms <= live:
+                keep.append(f)
+        st.pc = keep
+
     def check_invariants(self, spec: LoopSpec, st: State, label: str, node, env=None):
+        if label == "step" and spec.invariant:
+            self.oblige(st, f"{self.func_key}/loop{self._cur_loop}/must_fail", "must_fail", z3.BoolVal(False), node, (),
+                        "vacuity guard: the end of a loop iteration must be reachable under the assumed invariants")
         for i, cl in enumerate(spec.invariant):
             g = self.truth(self.sv(cl.tree, st, env))
             self.oblige(st, f"{self.func_key}/loop{self._cur_loop}/invariant[{i}].{label}", f"invariant.{label}", g,
@@ -503,6 +545,7 @@ class StmtMixin:
             limit = next(_fresh)
             written = self._discover_iteration(probe, head, body, step)
             self.havoc_written(hv, written, names, limit=limit)
+            self.drop_dead_facts(hv)
             if after_havoc is not None:
                 after_havoc(hv)
             self.assume_invariants(spec, hv)
